@@ -1,6 +1,6 @@
 """C23 Rotations stay valid.
 
-Bounded histories: a model with a free body, a ball-joint chain hanging from it, a ball joint on the world, and an isolated free body and a balanced ball joint whose
+Bounded histories: a model with a mocap body (geom, site, camera, a welded child; its mocap_quat is written unnormalised like qpos), a free body, a ball-joint chain hanging from it, a ball joint on the world, and an isolated free body and a balanced ball joint whose
 angular velocity stays exactly zero when started at rest (geoms,
 sites, cameras, offset inertial frames) is started from every combination of quaternion scale {1, 3, 1e-3} (unnormalised
 on purpose) x angular speed {0, 1, 50, 1000} rad/s about 3 axes x timestep {1e-3, 2e-2} x integrator {Euler, RK4,
@@ -37,6 +37,8 @@ XML = """<mujoco><option timestep="{dt}" integrator="{integ}" gravity="0 0 -9.81
       <body name="b2" pos="0.2 0 0"><joint name="b2" type="ball"/><geom type="ellipsoid" size=".05 .03 .02" pos="0.05 0 0" contype="0" conaffinity="0"/><site name="s2" pos="0.1 0 0"/></body></body></body>
   <body name="iso" pos="-0.6 0 1"><freejoint name="iso"/><geom type="sphere" size="0.05" contype="0" conaffinity="0"/></body>
   <body name="bal" pos="-0.6 0.5 1"><joint name="bal" type="ball"/><geom type="sphere" size="0.05" contype="0" conaffinity="0"/></body>
+  <body name="mc" mocap="true" pos="0.2 0.6 1" quat="0.5 0.5 -0.5 0.5"><geom type="box" size=".05 .03 .02" quat="0.8 0 0.6 0" contype="0" conaffinity="0"/><site name="smc" pos="0.05 0 0" quat="0.6 0 0 0.8"/><camera name="cmc" pos="0 0 0.1" quat="0 0.6 0.8 0"/>
+    <body name="mcw" pos="0.1 0 0" quat="0.36 0.48 0 0.8"><geom type="sphere" size="0.02" contype="0" conaffinity="0"/></body></body>
   <body name="w" pos="0.6 0 1"><joint name="bw" type="ball"/><geom type="cylinder" size=".03 .1" pos="0 0 -0.1" contype="0" conaffinity="0"/><camera name="cw" mode="targetbody" target="f" pos="0 0 0.2"/></body>
 </worldbody></mujoco>"""
 
@@ -110,6 +112,8 @@ def execute(scn):
       da = mjm.jnt_dofadr[j]
       off = 3 if mjm.jnt_type[j] == 0 else 0
       s.qvel[da + off : da + off + 3] = sgn * scn["speed"] * ax * (1.0 if j != 2 else 0.5)
+    # the mocap orientation is user input like qpos: written with the same (unnormalised) scale
+    s.mocap_quat[:] = np.array(QUAT0)[[1, 0, 3, 2]] * scn["scale"] * (1.0 if w == 0 else -1.0)
     util.copy_state(s, d, world=w)
     mjds.append(s)
   mjw.forward(m, d)
